@@ -139,14 +139,86 @@ class ConstLoss(gpytorch.mlls.AddedLossTerm):
         return self.value.clone()
 
 
+class Leaf(gpytorch.Module):
+    """a user module with one positive parameter w (it can carry a prior on w and an added-loss term)"""
+
+    def __init__(self, w):
+        super().__init__()
+        self.register_parameter("raw_w", torch.nn.Parameter(torch.zeros(())))
+        self.register_constraint("raw_w", gpytorch.constraints.Positive())
+        self.initialize(raw_w=self.raw_w_constraint.inverse_transform(torch.tensor(float(w))))
+
+    @property
+    def w(self):
+        return self.raw_w_constraint.transform(self.raw_w)
+
+    def forward(self, x):
+        return x
+
+
+class Holder(gpytorch.Module):
+    """a gpytorch Module without registrations of its own that holds one child"""
+
+    def __init__(self, child):
+        super().__init__()
+        self.child = child
+
+    def forward(self, x):
+        return x
+
+
+CONTAINER_KINDS = ["list", "dict", "seq", "holder"]
+
+
+def gen_extras(rng, depth=0, counter=None):
+    """a nested structure of PLAIN torch containers (nn.ModuleList / nn.ModuleDict / nn.Sequential: tree nodes that are not gpytorch
+    Modules and carry no registrations) and registration-free gpytorch Modules, with Leaf modules below them; ["ref", j] = the
+    very Leaf object number j again (a module reachable along two paths)"""
+    counter = counter if counter is not None else [0]
+    kind = rng.choice(CONTAINER_KINDS if depth else CONTAINER_KINDS[:3])
+    ch = []
+    for _ in range(1 if kind == "holder" else rng.randint(1, 2)):
+        r = rng.random()
+        if depth < 2 and r < 0.4:
+            ch.append(gen_extras(rng, depth + 1, counter))
+        elif counter[0] > 0 and r > 0.85:
+            ch.append(["ref", rng.randrange(counter[0])])
+        else:
+            ch.append(["leaf", _dy(rng, 0.25, 2)]); counter[0] += 1
+    return [kind, ch]
+
+
+def count_leaves(spec):
+    return 1 if spec[0] == "leaf" else 0 if spec[0] == "ref" else sum(count_leaves(c) for c in spec[1])
+
+
+def build_extras(spec, leaves):
+    if spec[0] == "leaf":
+        leaves.append(Leaf(spec[1]))
+        return leaves[-1]
+    if spec[0] == "ref":
+        return leaves[spec[1]]
+    mods = [build_extras(c, leaves) for c in spec[1]]
+    if spec[0] == "list":
+        return torch.nn.ModuleList(mods)
+    if spec[0] == "dict":
+        return torch.nn.ModuleDict({"k%d" % i: m for i, m in enumerate(mods)})
+    if spec[0] == "seq":
+        return torch.nn.Sequential(*mods)
+    return Holder(mods[0])
+
+
 class GP(gpytorch.models.ExactGP):
-    def __init__(self, x, y, lik, mean, kern, added=(), shared_handle=False):
+    def __init__(self, x, y, lik, mean, kern, added=(), shared_handle=False, extras=None):
         super().__init__(x, y, lik)
         self.mean_module, self.covar_module = mean, kern
         if shared_handle:
             # the pattern of gpytorch's own SGPR example: keep a handle to the inner kernel next to the outer one
             inner = kern.base_kernel if isinstance(kern, DyadicKernel) else kern
             self.base_covar_module = inner.base_kernel
+        self._leaves = []
+        if extras is not None:
+            self.extras = build_extras(extras, self._leaves)
         self._added = list(added)
         self._verif_terms = {}      # the harness' own record: registration index -> (module, name, current term object)
         for i, (where, _) in enumerate(self._added):
@@ -154,7 +226,8 @@ class GP(gpytorch.models.ExactGP):
 
     def _site(self, where):
         """model | kernel (the outer kernel) | shared (the INNER kernel: with shared_handle it is reachable from the model under
-        two names, its added-loss terms must still enter the objective once)"""
+        two names, its added-loss terms must still enter the objective once) | comp<i> (component i of a sum / product kernel:
+        below the kernel's torch.nn.ModuleList) | leaf:<i> (a Leaf below the plain containers of `extras`)"""
         if where == "model":
             return self
         if where == "shared":
@@ -162,7 +235,15 @@ class GP(gpytorch.models.ExactGP):
             while hasattr(k, "base_kernel"):
                 k = k.base_kernel
             return k
+        if where.startswith("comp"):
+            k = self.covar_module.base_kernel if isinstance(self.covar_module, DyadicKernel) else self.covar_module
+            return k.kernels[int(where[4:])]
+        if where.startswith("leaf:"):
+            return self._leaves[int(where[5:])]
         return self.covar_module
+
+    def _ipks(self):
+        return [m for m in self.covar_module.modules() if isinstance(m, gpytorch.kernels.InducingPointKernel)]
 
     def forward(self, x):
         for i, (where, val) in enumerate(self._added):
@@ -170,6 +251,14 @@ class GP(gpytorch.models.ExactGP):
             self._site(where).update_added_loss_term("verif_loss_%d" % i, term)
             self._verif_terms[i] = (self._site(where), "verif_loss_%d" % i, term)
         return gpytorch.distributions.MultivariateNormal(self.mean_module(x), self.covar_module(x))
+
+    def record_library_terms(self):
+        """the library's own added-loss terms (SGPR trace term of every InducingPointKernel): the current term object of the
+        module itself, read on that very module (its own registrations come first; no recursion through containers involved)"""
+        for j, ipk in enumerate(self._ipks()):
+            for nm, t in ipk.named_added_loss_terms():
+                if "." not in nm:
+                    self._verif_terms[1000 + j] = (ipk, nm, t)
 
 
 def _bt(rng, lo, hi, bs, tail=()):
@@ -180,51 +269,57 @@ def _bt(rng, lo, hi, bs, tail=()):
     return torch.tensor([rng.uniform(lo, hi) for _ in range(int(torch.Size(shape).numel()))]).reshape(shape)
 
 
-def make_kernel(name, d, rng, bs=()):
+def make_kernel(name, d, rng, bs=(), cp=None):
+    """cp: prior objects handed to the library's own CONSTRUCTORS (<parameter>_prior=...), keyed by the harness' target name"""
     k = gpytorch.kernels
     B = torch.Size(bs)
+    cp = cp or {}
+    L1, L2 = dict(lengthscale_prior=cp.get("lengthscale")), dict(lengthscale_prior=cp.get("lengthscale2"))
+    O1, O2 = dict(outputscale_prior=cp.get("outputscale")), dict(outputscale_prior=cp.get("outputscale2"))
     ls = lambda: _bt(rng, 0.4, 2.0, bs, (1, 1) if bs else ())  # noqa: E731
     if name == "rbf":
-        m = k.RBFKernel(batch_shape=B); m.lengthscale = ls()
+        m = k.RBFKernel(batch_shape=B, **L1); m.lengthscale = ls()
     elif name.startswith("matern"):
-        m = k.MaternKernel(nu={"05": 0.5, "15": 1.5, "25": 2.5}[name[-2:]], batch_shape=B); m.lengthscale = ls()
+        m = k.MaternKernel(nu={"05": 0.5, "15": 1.5, "25": 2.5}[name[-2:]], batch_shape=B, **L1); m.lengthscale = ls()
     elif name == "rq":
-        m = k.RQKernel(batch_shape=B); m.lengthscale = ls(); m.alpha = _bt(rng, 0.5, 3, bs, (1,) if bs else ())
+        m = k.RQKernel(batch_shape=B, **L1)     # (RQKernel has no alpha_prior argument)
+        m.lengthscale = ls(); m.alpha = _bt(rng, 0.5, 3, bs, (1,) if bs else ())
     elif name in ("scale_rbf", "scale_matern"):
-        base = k.RBFKernel(batch_shape=B) if name == "scale_rbf" else k.MaternKernel(nu=2.5, batch_shape=B)
+        base = k.RBFKernel(batch_shape=B, **L1) if name == "scale_rbf" else k.MaternKernel(nu=2.5, batch_shape=B, **L1)
         base.lengthscale = ls()
-        m = k.ScaleKernel(base, batch_shape=B); m.outputscale = _bt(rng, 0.3, 3, bs)
+        m = k.ScaleKernel(base, batch_shape=B, **O1); m.outputscale = _bt(rng, 0.3, 3, bs)
     elif name == "rbf+linear":
-        a = k.RBFKernel(batch_shape=B); a.lengthscale = ls()
-        b = k.LinearKernel(batch_shape=B); b.variance = _bt(rng, 0.2, 2, bs, (1, 1) if bs else ())
+        a = k.RBFKernel(batch_shape=B, **L1); a.lengthscale = ls()
+        b = k.LinearKernel(batch_shape=B, variance_prior=cp.get("variance")); b.variance = _bt(rng, 0.2, 2, bs, (1, 1) if bs else ())
         m = a + b
     elif name in ("ard_rbf", "ard_matern"):
-        m = k.RBFKernel(ard_num_dims=d, batch_shape=B) if name == "ard_rbf" else k.MaternKernel(nu=1.5, ard_num_dims=d, batch_shape=B)
+        m = k.RBFKernel(ard_num_dims=d, batch_shape=B, **L1) if name == "ard_rbf" else k.MaternKernel(nu=1.5, ard_num_dims=d, batch_shape=B, **L1)
         m.lengthscale = _bt(rng, 0.4, 2.0, bs, (1, d))
     elif name == "scale_ard_rbf":
-        base = k.RBFKernel(ard_num_dims=d, batch_shape=B); base.lengthscale = _bt(rng, 0.4, 2.0, bs, (1, d))
-        m = k.ScaleKernel(base, batch_shape=B); m.outputscale = _bt(rng, 0.3, 3, bs)
+        base = k.RBFKernel(ard_num_dims=d, batch_shape=B, **L1); base.lengthscale = _bt(rng, 0.4, 2.0, bs, (1, d))
+        m = k.ScaleKernel(base, batch_shape=B, **O1); m.outputscale = _bt(rng, 0.3, 3, bs)
     elif name == "scale_rbf+scale_matern":
-        a = k.ScaleKernel(k.RBFKernel(batch_shape=B), batch_shape=B)
-        b = k.ScaleKernel(k.MaternKernel(nu=2.5, batch_shape=B), batch_shape=B)
+        a = k.ScaleKernel(k.RBFKernel(batch_shape=B, **L1), batch_shape=B, **O1)
+        b = k.ScaleKernel(k.MaternKernel(nu=2.5, batch_shape=B, **L2), batch_shape=B, **O2)
         a.base_kernel.lengthscale = ls(); a.outputscale = _bt(rng, 0.3, 2, bs)
         b.base_kernel.lengthscale = ls(); b.outputscale = _bt(rng, 0.3, 2, bs)
         m = a + b
     elif name == "rbf*matern15":
-        a = k.RBFKernel(batch_shape=B); a.lengthscale = ls()
-        b = k.MaternKernel(nu=1.5, batch_shape=B); b.lengthscale = ls()
+        a = k.RBFKernel(batch_shape=B, **L1); a.lengthscale = ls()
+        b = k.MaternKernel(nu=1.5, batch_shape=B, **L2); b.lengthscale = ls()
         m = a * b
     elif name == "poly":
-        m = k.PolynomialKernel(power=2, batch_shape=B); m.offset = _bt(rng, 0.2, 2, bs, (1,) if bs else ())
+        m = k.PolynomialKernel(power=2, batch_shape=B, offset_prior=cp.get("offset")); m.offset = _bt(rng, 0.2, 2, bs, (1,) if bs else ())
     return m
 
 
-def make_mean(name, d, rng, bs=()):
+def make_mean(name, d, rng, bs=(), cp=None):
     B = torch.Size(bs)
+    cp = cp or {}
     if name == "zero":
         return gpytorch.means.ZeroMean(batch_shape=B)
     if name == "constant":
-        m = gpytorch.means.ConstantMean(batch_shape=B)
+        m = gpytorch.means.ConstantMean(batch_shape=B, constant_prior=cp.get("constant"))
         # never exactly 0: positive-support priors are placed on constant**2 (log density undefined at 0)
         m.constant.data = torch.tensor([_dy(rng, 1 / 64, 2) * rng.choice([-1, 1]) for _ in range(max(1, B.numel()))]).reshape(B)
         return m
@@ -234,16 +329,17 @@ def make_mean(name, d, rng, bs=()):
     return m
 
 
-def make_lik(name, n, rng, bs=(), full=()):
+def make_lik(name, n, rng, bs=(), full=(), cp=None):
     B = torch.Size(bs)
+    cp = cp or {}
     if name == "gaussian":
-        l = gpytorch.likelihoods.GaussianLikelihood(batch_shape=B)
+        l = gpytorch.likelihoods.GaussianLikelihood(batch_shape=B, noise_prior=cp.get("noise"))
         l.noise = _bt(rng, 0.05, 0.8, bs, (1,) if bs else ())
         return l
     F = torch.Size(full)
     noise = torch.tensor([_dy(rng, 0.05, 0.8) for _ in range(max(1, F.numel()) * n)]).reshape(*F, n)
     l = gpytorch.likelihoods.FixedNoiseGaussianLikelihood(noise, learn_additional_noise=(name == "fixed+learned"),
-                                                          batch_shape=B)
+                                                          batch_shape=B, **({"noise_prior": cp["second_noise"]} if cp.get("second_noise") is not None else {}))
     if name == "fixed+learned":
         l.second_noise = _bt(rng, 0.05, 0.5, bs, (1,) if bs else ())
     return l
@@ -277,6 +373,15 @@ def prior_targets(model, lik, case):
         t["alpha"] = (kern, "alpha", "kernel")
     if kn == "poly":
         t["offset"] = (kern, "offset", "kernel")
+    if kn in SGPR_KERNELS:
+        ipk = model._ipks()[0]
+        t["lengthscale"] = (ipk.base_kernel.base_kernel, "lengthscale", "kernel")
+        t["outputscale"] = (ipk.base_kernel, "outputscale", "kernel")
+        for o in (kern.kernels if hasattr(kern, "kernels") else []):
+            if o is not ipk:
+                t["variance"] = (o, "variance", "kernel")
+    for i, lf in enumerate(getattr(model, "_leaves", [])):
+        t["leaf:%d" % i] = (lf, "w", "leaf")
     if case["lik"] == "gaussian":
         t["noise"] = (lik.noise_covar, "noise", "lik")
     if case["lik"] == "fixed+learned":
@@ -287,6 +392,42 @@ def prior_targets(model, lik, case):
 
 
 COMPONENT = dict(noise="lik", second_noise="lik", constant="mean")
+SGPR_KERNELS = ["ipk", "ipk+linear", "linear+ipk", "ipk*linear"]
+# parameters for which the library's constructors take a `<parameter>_prior=` argument (of the components built here)
+CTOR_TARGETS = {"lengthscale", "lengthscale2", "outputscale", "outputscale2", "variance", "offset", "noise", "second_noise", "constant"}
+
+
+def ctor_priors(case):
+    """prior objects that go through the library's own constructors: harness target name -> prior object"""
+    return {p["target"]: make_prior(p["spec"]) for p in case.get("priors", []) if p.get("ctor")}
+
+
+def make_sgpr_kernel(name, d, rng, lik, Z, cp=None):
+    """InducingPointKernel(ScaleKernel(RBF), Z, lik) alone / as a summand / as a factor (then it sits below the torch.nn.ModuleList
+    of the Additive / Product kernel); well separated inducing points and short lengthscales keep K_ZZ well conditioned"""
+    k = gpytorch.kernels
+    cp = cp or {}
+    base = k.ScaleKernel(k.RBFKernel(lengthscale_prior=cp.get("lengthscale")), outputscale_prior=cp.get("outputscale"))
+    base.base_kernel.lengthscale = rng.uniform(0.4, 1.0); base.outputscale = rng.uniform(0.5, 2.0)
+    ipk = k.InducingPointKernel(base, torch.tensor(Z), lik)
+    if name == "ipk":
+        return ipk
+    lin = k.LinearKernel(variance_prior=cp.get("variance")); lin.variance = rng.uniform(0.2, 1.0)
+    return {"ipk+linear": lambda: ipk + lin, "linear+ipk": lambda: lin + ipk, "ipk*linear": lambda: ipk * lin}[name]()
+
+
+def sgpr_terms(model, X, Sdiag):
+    """the documented value of the SGPR trace term of every InducingPointKernel of the model: -1/2 sum_i (K_XX - Q)_ii / noise_i,
+    Q = K_XZ K_ZZ^-1 K_ZX, computed densely from the BASE kernel (independent of the term objects)"""
+    from linear_operator import to_dense
+    out = []
+    with torch.no_grad(), gs.debug(False):
+        for ipk in model._ipks():
+            Z = ipk.inducing_points
+            Kxx = to_dense(ipk.base_kernel(X, X)); Kxz = to_dense(ipk.base_kernel(X, Z)); Kzz = to_dense(ipk.base_kernel(Z, Z))
+            dg = (Kxx - Kxz @ torch.linalg.solve(Kzz, Kxz.transpose(-1, -2))).diagonal(dim1=-1, dim2=-2)
+            out.append(float(-0.5 * sum(dg[i].item() / float(Sdiag[i]) for i in range(dg.shape[-1]))))
+    return out
 
 
 def prior_component(case, p):
@@ -302,11 +443,13 @@ def attach_priors(model, lik, case):
     used, objs = {}, {}
     model._verif_regs = []          # what the harness registered: (module, registration name, prior object)
     for i, p in enumerate(case.get("priors", [])):
-        if p["target"] not in tg:
-            continue
+        if p["target"] not in tg or p.get("ctor"):
+            continue            # ctor: the library's constructor registered it
         mod, attr, _ = tg[p["target"]]
         f = CLOSURE_T[p["closure"]]
-        name = {"unique": "verif_prior_%d" % i, "canonical": attr + "_prior", "same": "prior"}[case.get("naming", "unique")]
+        # (with constructor-registered priors around, the harness' own registrations keep out of the library's names)
+        name = {"unique": "verif_prior_%d" % i, "canonical": attr + "_prior", "same": "prior"}[
+            "unique" if case.get("ctor") else case.get("naming", "unique")]
         if name in used.setdefault(id(mod), set()):
             name = "verif_prior_%d" % i
         used[id(mod)].add(name)
@@ -405,6 +548,8 @@ def added_tree(model):
     """the model's module tree with its ADDED-LOSS registrations (harness' own record; call after a forward pass)
     -> (Coq term, {name -> number}, {python id of term object -> number})"""
     ids, names, oids, by_mod = {}, {}, {}, {}
+    if hasattr(model, "record_library_terms"):
+        model.record_library_terms()
     for i in sorted(getattr(model, "_verif_terms", {})):
         mod, name, term = model._verif_terms[i]
         by_mod.setdefault(id(mod), []).append((names.setdefault(name, len(names)), oids.setdefault(id(term), len(oids))))
@@ -415,6 +560,43 @@ def added_tree(model):
         ch = "; ".join(walk(c) for _, c in mod.named_children())
         return "(MNode %d%%nat [%s] [%s])" % (me, ps, ch)
     return walk(model), names, oids
+
+
+def reg_tree(model, own):
+    """the module tree (structure from named_children) with, per module, its OWN registrations own(mod) -> [(name, object)]
+    -> (Coq term, {name -> number}, {python id of object -> number})"""
+    names, oids, ids = {}, {}, {}
+
+    def walk(mod):
+        me = ids.setdefault(id(mod), len(ids))
+        ps = "; ".join("(%d%%nat, %d%%nat)" % (names.setdefault(n, len(names)), oids.setdefault(id(o), len(oids))) for n, o in own(mod))
+        ch = "; ".join(walk(c) for _, c in mod.named_children())
+        return "(MNode %d%%nat [%s] [%s])" % (me, ps, ch)
+    return walk(model), names, oids
+
+
+def own_constraints(mod):
+    """the constraints registered on the module itself, through the public per-parameter accessor"""
+    out = []
+    if isinstance(mod, gpytorch.Module):
+        for nm, _ in mod.named_parameters(recurse=False):
+            c = mod.constraint_for_parameter_name(nm)
+            if c is not None:
+                out.append((nm + "_constraint", c))
+    return out
+
+
+def own_params(mod):
+    return list(mod.named_parameters(recurse=False))
+
+
+def impl_named_regs(it, names, oids):
+    return sorted((names.get(full.rsplit(".", 1)[-1], -1), oids.get(id(o), -1)) for full, o in it)
+
+
+TRAVERSALS = {"named-constraints": (own_constraints, lambda m: m.named_constraints()),
+              "named-hyperparameters": (own_params, lambda m: m.named_hyperparameters())}
+TRAVERSAL_FAMS = ("container", "shared", "sgpr", "samename")
 
 
 def impl_named_added(model, names, oids):
@@ -478,7 +660,15 @@ def _sub_shape(rng, F):
 BATCH_REGIMES = ["same", "independent", "nonbatch-kernel", "independent", "nonbatch-lik+mean"]
 
 
-def gen_case(rng, tier, family, regime=None):
+def _pos_prior(rng):
+    """a prior for a positive scalar through the identity closure (no SmoothedBox: it sums over the last dimension)"""
+    while True:
+        spec = gen_prior(rng)
+        if spec["kind"] != "smoothedbox":
+            return spec
+
+
+def gen_case(rng, tier, family, regime=None, ctor=False):
     n = rng.choice([1, 2, 2, 3, 3, 3, 4, 4, 5] if tier == "quick" else [1, 2, 3, 3, 4, 4, 5, 5, 6, 7])
     d = rng.randint(1, 3)
     c = dict(family=family, n=n, d=d, kernel=rng.choice(KERNELS), mean=rng.choice(MEANS), lik=rng.choice(LIKS),
@@ -561,6 +751,70 @@ def gen_case(rng, tier, family, regime=None):
                  priors=[dict(target="lengthscale", spec=spec, closure="id", by_name=True),
                          dict(target="lengthscale2", spec=spec, closure="id", by_name=True, share_with=0)]
                  + [p for p in c["priors"] if p["target"] in ("noise", "constant")])
+    if family == "container":
+        # registrations BELOW plain torch containers: components of a sum / product kernel (kept in a torch.nn.ModuleList) and user
+        # modules below nested ModuleList / ModuleDict / Sequential / registration-free gpytorch Modules of the model
+        kn = rng.choice(TWO_COMPONENT + ["rbf+linear", "rbf+linear", "scale_rbf", "rbf"])
+        extras = gen_extras(rng)
+        nl = count_leaves(extras)
+        below = ["leaf:%d" % i for i in range(nl)] + (["comp0", "comp1"] if ("+" in kn or "*" in kn) else [])
+        added = [dict(where=rng.choice(below), value=rng.randint(4, 40) / 16.0 * rng.choice([-1, 1]))]
+        for _ in range(rng.choice([0, 1, 2])):
+            added.append(dict(where=rng.choice(below + ["model", "kernel"]), value=rng.randint(-40, 40) / 16.0))
+        pri = list(c["priors"])
+        for i in range(nl):
+            if rng.random() < 0.6:
+                pri.append(dict(target="leaf:%d" % i, spec=_pos_prior(rng), closure=rng.choice(["id", "square"]), by_name=False))
+        c.update(kernel=kn, n=rng.randint(2, 3), extras=extras, added=added, priors=pri)
+    if family == "sgpr":
+        # the library's own added-loss term (SGPR trace term): InducingPointKernel alone, as a summand and as a factor
+        n = rng.randint(2, 3)
+        c.update(kernel=rng.choice(SGPR_KERNELS), n=n, lik=rng.choice(["gaussian", "gaussian", "fixed", "fixed+learned"]), added=c["added"][:1],
+                 priors=[p for p in c["priors"] if p["target"] in ("lengthscale", "outputscale", "noise", "variance", "constant", "second_noise")])
+        while True:
+            Z = [[float(rng.randint(-3, 3)) for _ in range(d)] for _ in range(rng.randint(1, n))]
+            if len({tuple(z) for z in Z}) == len(Z):
+                break
+        c["Z"] = Z
+    if family == "mtlik-taskprior":
+        # task_prior of MultitaskGaussianLikelihood (rank > 0): a prior over the task noise covariance matrix F F^T + noise I
+        T = rng.choice([2, 3])
+        glob = rng.random() < 0.7
+        pri = [dict(target="mt_task_prior", spec=dict(kind="normal", a=rng.randint(-8, 8) / 8.0, b=rng.randint(4, 16) / 8.0), closure="id", ctor=True)]
+        if glob and rng.random() < 0.5:
+            pri.append(dict(target="mt_noise", spec=_pos_prior(rng), closure="id", ctor=True))
+        c.update(n=rng.randint(1, 2), tasks=T, rank=rng.choice([0, 1]), noise_rank=rng.randint(1, 2), has_global_noise=glob,
+                 has_task_noise=True, kernel=rng.choice(["rbf", "matern25"]), mean="constant", lik="multitask", added=[], priors=pri)
+    if family == "mtlik":
+        # MultitaskGaussianLikelihood in all rank / has_global_noise / has_task_noise configurations with the priors its own
+        # constructor registers (noise_prior), + task_covar_prior of MultitaskKernel, constant_prior of the per-task means
+        T = rng.choice([2, 3])
+        glob, task = rng.choice([(True, True), (True, True), (True, True), (True, False), (False, True)])
+        pri = [dict(target="mt_noise", spec=_pos_prior(rng), closure="id", ctor=True)]    # (SmoothedBox has event shape [1])
+        nrm = lambda: dict(kind="normal", a=rng.randint(-8, 8) / 8.0, b=rng.randint(4, 16) / 8.0)  # noqa: E731
+        if rng.random() < 0.4:
+            pri.append(dict(target="mt_task_covar", spec=nrm(), closure="id", ctor=True))
+        if rng.random() < 0.4:
+            pri.append(dict(target="mt_constant", spec=nrm(), closure="id", ctor=True))
+        if rng.random() < 0.5:
+            pri.append(dict(target="lengthscale", spec=gen_prior(rng), closure="id", ctor=True))
+        c.update(n=rng.randint(1, 2), tasks=T, rank=rng.choice([0, 1]), noise_rank=rng.choice([0, 0, 1]) if task else 0,
+                 has_global_noise=glob, has_task_noise=task, kernel=rng.choice(["rbf", "matern25", "rq"]), mean="constant",
+                 lik="multitask", added=[], priors=pri)
+    if ctor:
+        # priors handed to the library's own constructors (<parameter>_prior=...): the expected term is the prior's log density at
+        # the parameter the argument name refers to
+        seen = set()
+        for p in c["priors"]:
+            if p["target"] in CTOR_TARGETS and p["target"] not in seen and not p.get("share_with"):
+                seen.add(p["target"])
+                p.update(ctor=True, closure="id")
+                if p["target"] == "constant":
+                    p["spec"] = dict(kind="normal", a=rng.randint(-8, 8) / 8.0, b=rng.randint(4, 16) / 8.0)
+        for t in (["offset"] if c["kernel"] == "poly" else ["lengthscale"]) + (["noise"] if c["lik"] == "gaussian" else []):
+            if t not in seen:
+                c["priors"].append(dict(target=t, spec=gen_prior(rng), closure="id", ctor=True))
+        c["ctor"] = True
     if family == "grad":
         c.update(n=rng.randint(2, 4), lik=rng.choice(["gaussian", "fixed+learned"]),
                  kernel=rng.choice(["rbf", "matern25", "rq", "scale_rbf", "ard_rbf", "rbf+linear", "scale_rbf+scale_matern"]),
@@ -568,16 +822,19 @@ def gen_case(rng, tier, family, regime=None):
     c["dyadic"] = family != "grad" and c["n"] * c.get("tasks", 1) >= 4
     c["X"] = sep_points(rng, c["n"], d)
     c["y"] = [rng.randint(-16, 16) / 8.0 for _ in range(c["n"])]
-    if family == "multitask":
-        c["y"] = [[rng.randint(-16, 16) / 8.0 for _ in range(2)] for _ in range(c["n"])]
+    if family in MT_FAMS:
+        c["y"] = [[rng.randint(-16, 16) / 8.0 for _ in range(c["tasks"])] for _ in range(c["n"])]
     return c
 
 
+MT_FAMS = ("multitask", "mtlik", "mtlik-taskprior")
+
+
 class MTGP(gpytorch.models.ExactGP):
-    def __init__(self, x, y, lik, T, rank, kern):
+    def __init__(self, x, y, lik, T, rank, kern, mean_prior=None, task_covar_prior=None):
         super().__init__(x, y, lik)
-        self.mean_module = gpytorch.means.MultitaskMean(gpytorch.means.ConstantMean(), num_tasks=T)
-        self.covar_module = gpytorch.kernels.MultitaskKernel(kern, num_tasks=T, rank=rank)
+        self.mean_module = gpytorch.means.MultitaskMean(gpytorch.means.ConstantMean(constant_prior=mean_prior), num_tasks=T)
+        self.covar_module = gpytorch.kernels.MultitaskKernel(kern, num_tasks=T, rank=rank, task_covar_prior=task_covar_prior)
 
     def forward(self, x):
         return gpytorch.distributions.MultitaskMultivariateNormal(self.mean_module(x), self.covar_module(x))
@@ -601,36 +858,48 @@ def build(case):
     torch.manual_seed(case["hseed"] % (2 ** 31))
     fam = case["family"]
     n, d = case["n"], case["d"]
-    if fam == "multitask":
+    if fam in MT_FAMS:
         T = case["tasks"]
         X = torch.tensor(case["X"]); y = torch.tensor(case["y"])
-        lik = gpytorch.likelihoods.MultitaskGaussianLikelihood(num_tasks=T, rank=case["noise_rank"])
-        lik.noise = rng.uniform(0.05, 0.5)
-        if case["noise_rank"] == 0:
+        cp = ctor_priors(case)
+        glob, task = case.get("has_global_noise", True), case.get("has_task_noise", True)
+        lik = gpytorch.likelihoods.MultitaskGaussianLikelihood(num_tasks=T, rank=case["noise_rank"], noise_prior=cp.get("mt_noise"),
+                                                               task_prior=cp.get("mt_task_prior"),
+                                                               has_global_noise=glob, has_task_noise=task)
+        if glob:
+            lik.noise = rng.uniform(0.05, 0.5)
+        if task and case["noise_rank"] == 0:
             lik.task_noises = torch.tensor([rng.uniform(0.05, 0.5) for _ in range(T)])
-        else:
-            lik.task_noise_covar_factor.data = torch.tensor([[rng.uniform(-0.7, 0.7)] for _ in range(T)])
-        kern = make_kernel(case["kernel"], d, rng)
-        model = MTGP(X, y, lik, T, case["rank"], DyadicKernel(kern) if case.get("dyadic") else kern)
+        elif task:
+            lik.task_noise_covar_factor.data = torch.tensor([[rng.uniform(-0.7, 0.7) for _ in range(case["noise_rank"])] for _ in range(T)])
+        kern = make_kernel(case["kernel"], d, rng, cp=cp)
+        model = MTGP(X, y, lik, T, case["rank"], DyadicKernel(kern) if case.get("dyadic") else kern,
+                     mean_prior=cp.get("mt_constant"), task_covar_prior=cp.get("mt_task_covar"))
         for bm in model.mean_module.base_means:
             bm.constant.data.fill_(rng.uniform(-1, 1))
         model.covar_module.task_covar_module.covar_factor.data = torch.tensor(
             [[rng.uniform(-1, 1) for _ in range(case["rank"])] for _ in range(T)]).reshape(T, case["rank"])
         model.covar_module.task_covar_module.var = torch.tensor([rng.uniform(0.2, 1.5) for _ in range(T)])
-        # priors on the data kernel only
+        # priors on the data kernel registered by the harness
         tg = {"lengthscale": (kern, "lengthscale"), "alpha": (kern, "alpha")}
         for i, p in enumerate(case.get("priors", [])):
-            if p["target"] in tg and hasattr(kern, p["target"]):
+            if p["target"] in tg and hasattr(kern, p["target"]) and not p.get("ctor"):
                 mod, attr = tg[p["target"]]
                 mod.register_prior("verif_prior_%d" % i, make_prior(p["spec"]),
                                    (lambda a, g: (lambda m: g(getattr(m, a))))(attr, CLOSURE_T[p["closure"]]))
         return model, lik, X, y
     sh = case_shapes(case)
     dshape, full = sh["data"], sh["full"]
-    kern = make_kernel(case["kernel"], d, rng, sh["kernel"])
+    cp = ctor_priors(case)
+    sgpr = case["kernel"] in SGPR_KERNELS
+    if sgpr:
+        lik = make_lik(case["lik"], n, rng, sh["lik"], full, cp=cp)
+        kern = make_sgpr_kernel(case["kernel"], d, rng, lik, case["Z"], cp=cp)
+    else:
+        kern = make_kernel(case["kernel"], d, rng, sh["kernel"], cp=cp)
     if case.get("dyadic"):
         kern = DyadicKernel(kern)
-    mean = make_mean(case["mean"], d, rng, sh["mean"])
+    mean = make_mean(case["mean"], d, rng, sh["mean"], cp=cp)
 
     def expand_pts(pts, shape):
         base = torch.tensor(pts)
@@ -642,14 +911,15 @@ def build(case):
         y = torch.tensor([[rng.randint(-16, 16) / 8.0 for _ in range(n)] for _ in range(max(1, torch.Size(full).numel()))]).reshape(*full, n)
     else:
         y = torch.tensor(case["y"])
-    lik = make_lik(case["lik"], n, rng, sh["lik"], full)
+    if not sgpr:
+        lik = make_lik(case["lik"], n, rng, sh["lik"], full, cp=cp)
     added = []
     for a in case.get("added", []):
         val = torch.tensor(a["value"])
         if full:
             val = val + 0.25 * torch.arange(torch.Size(full).numel(), dtype=torch.float64).reshape(full)
         added.append((a["where"], val))
-    model = GP(X, y, lik, mean, kern, added, shared_handle=bool(case.get("shared_handle")))
+    model = GP(X, y, lik, mean, kern, added, shared_handle=bool(case.get("shared_handle")), extras=case.get("extras"))
     attach_priors(model, lik, case)
     if case.get("copied"):
         # the objective of a DEEP COPY of the model whose hyper-parameters are changed afterwards (what get_fantasy_model,
@@ -733,7 +1003,7 @@ def plan_case(case, model=None, lik=None, X=None, y=None, which=("mll", "loo"), 
     of a SumMarginalLogLikelihood, multitask): one value per prior, summed here"""
     if model is None:
         model, lik, X, y = build(case)
-    mt = case["family"] == "multitask"
+    mt = case["family"] in MT_FAMS
     bshape, els = dense_inputs(model, lik, X, y, mt)
     case["_bshape"] = bshape
     case["_shapes"] = case_shapes(case)
@@ -744,6 +1014,9 @@ def plan_case(case, model=None, lik=None, X=None, y=None, which=("mll", "loo"), 
     else:
         pri = expected_priors(model, lik, case, nb) if not mt else mt_priors(model, case, nb)
     add = added_values(case, nb)
+    if case["kernel"] in SGPR_KERNELS:
+        for b, (K, mu, S, yy) in enumerate(els):
+            add[b] = add[b] + sgpr_terms(model, X, [S[i][i] for i in range(len(mu))])
     terms = []
     for b, (K, mu, S, yy) in enumerate(els):
         N = len(mu)
@@ -761,14 +1034,37 @@ def plan_case(case, model=None, lik=None, X=None, y=None, which=("mll", "loo"), 
 
 
 def mt_priors(model, case, nb):
+    """expected log-prior terms of a multitask model: log density of the prior at the DOCUMENTED target of the constructor
+    argument (constrained values, read through the public properties), independent of the registered closures"""
     kern = model.covar_module.data_covar_module
     if isinstance(kern, DyadicKernel):
         kern = kern.base_kernel
+    lik = model.likelihood
+    lp = lambda p, vals: sum((prior_logpdf(p["spec"], CLOSURE_M[p["closure"]](mp.mpf(e))) for e in vals), mp.mpf(0))  # noqa: E731
     out = []
     for p in case.get("priors", []):
-        if hasattr(kern, p["target"]):
-            v = getattr(kern, p["target"]).detach().reshape(-1).tolist()
-            out.append(sum((prior_logpdf(p["spec"], CLOSURE_M[p["closure"]](mp.mpf(e))) for e in v), mp.mpf(0)))
+        t = p["target"]
+        if t == "mt_noise":
+            # noise_prior: the prior of the noise variances -- every task noise (diagonal task noise, rank 0) and the global noise
+            if case.get("has_task_noise", True) and case["noise_rank"] == 0:
+                out.append(lp(p, lik.task_noises.detach().reshape(-1).tolist()))
+            if case.get("has_global_noise", True):
+                out.append(lp(p, lik.noise.detach().reshape(-1).tolist()))
+        elif t == "mt_task_prior":
+            # task_prior (rank > 0): prior over the task noise covariance matrix F F^T + noise I
+            F = lik.task_noise_covar_factor.detach()
+            M = F @ F.transpose(-1, -2) + (lik.noise.detach() if case.get("has_global_noise", True) else 0.0) * torch.eye(F.shape[-2])
+            out.append(lp(p, M.reshape(-1).tolist()))
+        elif t == "mt_task_covar":
+            # task_covar_prior: prior over the inter-task covariance matrix B B^T + diag(v)
+            tc = model.covar_module.task_covar_module
+            Bf = tc.covar_factor.detach()
+            out.append(lp(p, (Bf @ Bf.transpose(-1, -2) + torch.diag_embed(tc.var.detach())).reshape(-1).tolist()))
+        elif t == "mt_constant":
+            # constant_prior of the ConstantMean that MultitaskMean copies once per task
+            out.append(lp(p, [bm.constant.detach().item() for bm in model.mean_module.base_means]))
+        elif hasattr(kern, t):
+            out.append(lp(p, getattr(kern, t).detach().reshape(-1).tolist()))
     return [list(out) for _ in range(nb)]
 
 
@@ -874,8 +1170,10 @@ def grad_plan(case):
 def run(out, ctx):
     tier, seed = ctx["tier"], ctx["seed"]
     rng = random.Random(seed * 104729 + 2)
-    nc = dict(single=46, batch=15, multitask=8, shared=4, samename=8, sharedprior=3, sum=8, grad=6) if tier == "quick" else \
-        dict(single=500, batch=200, multitask=100, shared=30, samename=60, sharedprior=20, sum=80, grad=40)
+    nc = dict(single=46, batch=15, multitask=8, shared=4, samename=8, sharedprior=3, sum=8, grad=6,
+              container=14, sgpr=8, mtlik=12, ctor=6, ctor_batch=4) if tier == "quick" else \
+        dict(single=500, batch=200, multitask=100, shared=30, samename=60, sharedprior=20, sum=80, grad=40,
+             container=150, sgpr=80, mtlik=120, ctor=60, ctor_batch=40)
     nc = {k: max(1, int(v * ctx.get("scale", 1.0))) for k, v in nc.items()}   # scale < 1 only in builder sensitivity runs
     cases = [gen_case(rng, tier, fam, regime=BATCH_REGIMES[j % len(BATCH_REGIMES)] if fam == "batch" else None)
              for fam in ("single", "batch", "multitask", "shared", "samename", "sharedprior") for j in range(nc[fam])]
@@ -888,22 +1186,35 @@ def run(out, ctx):
             c["priors"] = gen_priors(crng, p_any=1.0)
         c["copied"] = True
         cases.append(c)
+    # registrations below plain torch containers, the library's own added-loss term (SGPR) alone / as summand / as factor, priors
+    # registered by the library's own constructors (own stream)
+    trng = random.Random(seed * 7919 + 204)
+    cases += [gen_case(trng, tier, fam) for fam in ("container", "sgpr", "mtlik") for _ in range(nc[fam])]
+    cases += [gen_case(trng, tier, "mtlik-taskprior") for _ in range(max(2, nc["mtlik"] // 6))]
+    cases += [gen_case(trng, tier, "single", ctor=True) for _ in range(nc["ctor"])]
+    cases += [gen_case(trng, tier, "batch", regime=BATCH_REGIMES[j % len(BATCH_REGIMES)], ctor=True) for j in range(nc["ctor_batch"])]
     sums = [gen_sum_case(rng, tier) for _ in range(nc["sum"])]
     # the per-member-params call form and members of different sizes (own stream: the cases above stay what they were)
     srng = random.Random(seed * 7919 + 202)
     sums += [gen_sum_case(srng, tier, form=("params" if j % 4 != 3 else "plain"), hetero=(j % 4 != 2)) for j in range(nc["sum"])]
     grads = [gen_case(rng, tier, "grad") for _ in range(nc["grad"])]
     coq, owner = [], []
-    named_impl, added_impl = {}, {}
+    named_impl, added_impl, trav_impl = {}, {}, {}
+    build_err = {}
     for ci, c in enumerate(cases):
-        built = build(c)
-        for kind, b, term in plan_case(c, *built):
+        try:
+            built = build(c)
+            planned = plan_case(c, *built)
+        except Exception as e:  # noqa: BLE001  (constructing the model / evaluating its prior pieces raised)
+            build_err[ci] = e
+            continue
+        for kind, b, term in planned:
             coq.append(term); owner.append(("case", ci, kind, b))
-        if c["family"] != "multitask":
+        if c["family"] not in MT_FAMS and not c.get("ctor"):
             # which registrations Module.named_priors yields, against the model's traversal of the same module tree
             tree, ids, names, pids = module_tree(built[0])
             coq.append("CN " + tree); owner.append(("named", ci, "named", 0))
-            if c["added"]:
+            if c["added"] or c["kernel"] in SGPR_KERNELS:
                 # ... and which added-loss terms Module.named_added_loss_terms yields (the terms exist after the forward pass
                 # of plan_case)
                 atree, anames, aoids = added_tree(built[0])
@@ -916,6 +1227,15 @@ def run(out, ctx):
                 named_impl[ci] = impl_named_priors(built[0], ids, names, pids)
             except Exception as e:  # noqa: BLE001
                 named_impl[ci] = e
+            if c["family"] in TRAVERSAL_FAMS:
+                # the other traversals of the same module tree: every distinct constraint / parameter object exactly once
+                for what, (own, call) in TRAVERSALS.items():
+                    ttree, tn, to = reg_tree(built[0], own)
+                    coq.append("CNA " + ttree); owner.append((what, ci, what, 0))
+                    try:
+                        trav_impl[(what, ci)] = impl_named_regs(call(built[0]), tn, to)
+                    except Exception as e:  # noqa: BLE001
+                        trav_impl[(what, ci)] = e
     for si, c in enumerate(sums):
         coq.append(plan_sum(c)); owner.append(("sum", si, "sum", 0))
     gplans = []
@@ -936,6 +1256,14 @@ def run(out, ctx):
                 "against its own dense objective), two same-kind kernel components with same-named priors on both (family samename), one prior object registered on two modules (family sharedprior), Kronecker multitask (2 tasks, num_data = n*t), models that keep a second handle to the inner kernel (the SGPR example's base_covar_module pattern) with a prior on it, IndependentModelList + "
                 "the same objectives on a deep copy of the model whose raw hyper-parameters were all shifted afterwards (family single, "
                 ">= 1 prior, registered by parameter name or by closure), "
+                "registrations BELOW plain torch containers (family container: added-loss terms and priors on the components of a sum / product kernel -- kept in a torch.nn.ModuleList -- and on user "
+                "modules below nested nn.ModuleList / nn.ModuleDict / nn.Sequential / registration-free gpytorch Modules of the model, also reachable along two paths; "
+                "named_priors, named_added_loss_terms, named_constraints and named_hyperparameters compared exactly with the traversal model, objective values with the dense definition), "
+                "the library's own added-loss term (family sgpr: InducingPointKernel alone, as a summand and as a factor; expected trace term computed densely from the base kernel), "
+                "priors registered by the library's OWN constructors (lengthscale_prior / outputscale_prior / variance_prior / offset_prior / constant_prior / noise_prior of kernels, means, "
+                "Gaussian and fixed+learned likelihoods, non-batch and batched: label :ctor-priors; family mtlik: MultitaskGaussianLikelihood(noise_prior=) with 2-3 tasks in every rank / has_global_noise / "
+                "has_task_noise configuration, MultitaskKernel(task_covar_prior=), per-task ConstantMean(constant_prior=); family mtlik-taskprior: task_prior with rank 1-2): the expected term is the prior's "
+                "log density at the documented target, computed by the harness independently of the registered closure, "
                 "SumMarginalLogLikelihood (2-3 members; called as mll(outputs, targets) and as mll(outputs, targets, [x_1], ..., [x_k]) "
                 "with every member's own argument list; members of equal sizes and of pairwise different sizes 1..4 with "
                 "fixed / fixed+learned / Gaussian noise).  ExactMarginalLogLikelihood and LeaveOneOutPseudoLikelihood are both "
@@ -950,6 +1278,14 @@ def run(out, ctx):
         by.setdefault(o[:2], []).append((o[2], o[3], r))
     # ---- values
     for ci, case in enumerate(cases):
+        if ci in build_err:
+            lab = "mll:%s%s" % (case["family"], ":ctor-priors" if case.get("ctor") else "")
+            out.case(dict(objective="mll", family=case["family"], n=case["n"], kernel=case["kernel"], lik=case["lik"], hseed=case["hseed"],
+                          build_error=True), False, label=lab)
+            out.fail("impl-exception:build:%s:%s" % (lab, type(build_err[ci]).__name__),
+                     "constructing the model / its prior pieces on the training inputs raised %r" % build_err[ci],
+                     dict(case=_clean(case), objective="mll"))
+            continue
         got = {}
         for kind, b, r in by.get(("case", ci), []):
             N = case["n"] * (case.get("tasks", 1))
@@ -959,7 +1295,7 @@ def run(out, ctx):
             got.setdefault(kind, {})[b] = d
         for kind in sorted(got):
             fam = case["family"]
-            lab = "%s:%s%s" % (kind, fam, ":deepcopy" if case.get("copied") else "")
+            lab = "%s:%s%s%s" % (kind, fam, ":deepcopy" if case.get("copied") else "", ":ctor-priors" if case.get("ctor") else "")
             desc = dict(objective=kind, family=fam, copied=bool(case.get("copied")), n=case["n"], d=case["d"], kernel=case["kernel"], mean=case["mean"],
                         lik=case["lik"], pattern=case.get("pattern"), naming=case.get("naming"), npriors=len(case["priors"]), nadded=len(case["added"]),
                         fast_log_prob=case["fast_log_prob"], hseed=case["hseed"])
@@ -1012,6 +1348,19 @@ def run(out, ctx):
             out.fail(key, "Module.named_added_loss_terms does not yield every distinct term object exactly once ((name, term object) "
                      "numbers; -1 = not one of the registered)", dict(case=_clean(case), objective="named-added"),
                      impl=[list(t) for t in added_impl[ci]], model=[list(t) for t in want])
+    # ---- named_constraints / named_hyperparameters (discrete: exact)
+    for (what, ci), got in sorted(trav_impl.items()):
+        case = cases[ci]
+        (_, _, r), = by[(what, ci)]
+        want = sorted((r[k + 1], r[k + 2]) for k in range(0, len(r), 3))
+        out.case(dict(objective=what, family=case["family"], kernel=case["kernel"], nobjects=len(want), hseed=case["hseed"]),
+                 len(want) >= 2, label="%s:%s" % (what, case["family"]))
+        if isinstance(got, Exception):
+            out.fail("impl-exception:%s:%s" % (what, case["family"]), "%s() raised %r" % (what, got), dict(case=_clean(case), objective=what))
+        elif got != want:
+            out.fail("%s:%s" % (what, case["family"]), "Module.%s does not yield every distinct registered object exactly once ((name, object) "
+                     "numbers; -1 = not one of the module tree's own)" % what.replace("-", "_"), dict(case=_clean(case), objective=what),
+                     impl=[list(t) for t in got], model=[list(t) for t in want])
     # ---- named_priors (discrete: exact)
     for ci, case in enumerate(cases):
         if ci not in named_impl:
@@ -1099,6 +1448,15 @@ def replay(path):
         got = impl_named_priors(model, ids, names, pids)
         print("module tree", tree); print("impl  named_priors (module, name, prior object)", got); print("model named_priors", want)
         bad = got != want
+    elif kind in TRAVERSALS:
+        model = build(case)[0]
+        own, call = TRAVERSALS[kind]
+        ttree, tn, to = reg_tree(model, own)
+        r = C.coq_run_cases("C02_replay", IMPORTS, RUN_DEF, ["CNA " + ttree])[0]
+        want = sorted((r[k + 1], r[k + 2]) for k in range(0, len(r), 3))
+        got = impl_named_regs(call(model), tn, to)
+        print("module tree", ttree); print("impl ", kind, got); print("model", want)
+        bad = got != want
     elif kind == "named-added":
         built = build(case)
         plan_case(dict(case), *built)         # a forward pass: the added-loss terms exist
@@ -1123,7 +1481,11 @@ def replay(path):
             bad = not C.close(ent["autograd"][k], fd, GRAD_ATOL, GRAD_RTOL)
     else:
         b = info.get("batch_element", 0)
-        terms = [t for (kk, bb, t) in plan_case(case) if kk == kind and bb == b]
+        try:
+            terms = [t for (kk, bb, t) in plan_case(case) if kk == kind and bb == b]
+        except Exception as e:  # noqa: BLE001
+            print("constructing the model / its prior pieces raised %r" % e); print("FAILS")
+            return 1
         r = C.coq_run_cases("C02_replay", IMPORTS, RUN_DEF, terms)[0]
         dd = decode(kind, r, case["n"] * case.get("tasks", 1))
         v = impl_objective(case, kind)[b]
